@@ -281,16 +281,6 @@ def build_x(case):
     return np.ascontiguousarray(x, dtype=np.float64)
 
 
-def effective_x(case):
-    """the stacked vector that is actually projected: in the forms facet the variables' embedding."""
-    x = build_x(case)
-    if "tflag" in case and case["flag"]:
-        R = ref_of(case["shape"])
-        typ, m = case["type"], case.get("m")
-        x = embed(R, typ, m, restrict(R, typ, m, x, True), True)
-    return x
-
-
 def competitors(case, R, x, p_ref):
     """feasible comparison points (name, z) for the variational inequality."""
     typ, m, kind = case["type"], case.get("m"), case["kind"]
@@ -382,21 +372,6 @@ def forms_case(draw, tier):
     case["tflag"] = draw(st.booleans())
     case["arg_none"] = draw(st.booleans())
     return case
-
-
-# ============================================================================= known-finding predicates
-def pred_mprocess_eq_with_var_unconstrained(case):
-    """C04-F1: MProcess.calc_proj_eq_constraint_with_var writes through a reshaped view when on_para_eq_constraint=False."""
-    return case.get("type") == "mprocess" and case.get("kind") == "eq" and case.get("flag") is False
-
-
-def pred_imag_noise_reaches_atol(case):
-    """C04-F2: rounding noise of the rebuilt operators (~ eps * D * max|x|) can reach the absolute threshold 1e-13."""
-    if case.get("kind") != "ineq":
-        return False
-    x = effective_x(case)
-    dd = op_dim(case["type"], gen.dim_of(case["shape"]))
-    return bool(2.2e-16 * dd * float(np.max(np.abs(x))) >= 3e-14)
 
 
 # ============================================================================= helpers for the checks
@@ -561,7 +536,18 @@ def check_object(case, ctx):
     required = bool(case.get("required"))
     qz = build.make(c_sys, typ, z, m=m, on_para_eq_constraint=flag, is_physicality_required=required)
     snap_z = _snap(qz, typ)
-    pz = _proj(qz, kind)
+    try:
+        pz = _proj(qz, kind)
+    except ValueError as e:
+        # the result inherits is_physicality_required: projecting a physical object must give a physical object
+        if not required or "not physically correct" not in str(e):
+            raise
+        ctx.check(False, f"physical_stays_physical:{kind}:{typ}",
+                  f"projection of an accepted physical object raised ValueError: {str(e)[:100]}")
+        ctx.label("physical-input-rejected")
+        qz = build.make(c_sys, typ, z, m=m, on_para_eq_constraint=flag, is_physicality_required=False)
+        snap_z = _snap(qz, typ)
+        pz = _proj(qz, kind)
     ctx.equal(_snap(qz, typ), snap_z, f"no_mutation_object:{kind}:{typ}")
     tz = _tolerances(typ, R.d, z)[0]
     ctx.close(build.stacked_of(pz), z, tz, f"fixed_point_physical:{kind}:{typ}")
